@@ -824,3 +824,8 @@ package table
 //@ func (*RoutingPolicy).getPolicy
 //@   claims frame
 //@   modifies nothing
+// from C10 "what is read back equals what was configured": a request that is answered with an error leaves nothing
+// behind - a policy that refers to a statement nobody defined is neither stored nor merged into an existing one
+//@ func (*RoutingPolicy).AddPolicy
+//@   claims at-return
+//@   at-return requires !ok && ret0 != nil ==> !has(pMap, name)
